@@ -243,3 +243,37 @@ theorem iso_comp (hwf : WF g) {h' : Graph} {ψ : Nat → Nat} (hφ : IsoOn saveP
 
 end
 end TenpyModel.C17
+
+namespace TenpyModel.C17
+/-- entries of a list/tuple/set: `(str(s), c₀), (str(s+1), c₁), …` -/
+def namedFrom : Nat → List Nat → Kids
+  | _, [] => []
+  | s, c :: cs => (.idx s, c) :: namedFrom (s + 1) cs
+
+theorem lookupName_skip (n : Name) (c : Nat) : ∀ (pre rest : Kids), (∀ x ∈ pre, x.1 ≠ n) →
+    lookupName n (pre ++ (n, c) :: rest) = some c
+  | [], rest, _ => by simp [lookupName]
+  | (m, d) :: pre, rest, h => by
+    have hm : m ≠ n := h (m, d) (List.mem_cons_self ..)
+    simp only [List.cons_append, lookupName, hm, if_false]
+    exact lookupName_skip n c pre rest (fun x hx => h x (List.mem_cons_of_mem _ hx))
+
+theorem idxKids_namedFrom : ∀ (cs : List Nat) (s : Nat) (pre : Kids),
+    (∀ x ∈ pre, ∀ j, s ≤ j → x.1 ≠ .idx j) →
+    idxKids (pre ++ namedFrom s cs) cs.length s = some (namedFrom s cs)
+  | [], _, _, _ => rfl
+  | c :: cs, s, pre, h => by
+    simp only [namedFrom, List.length_cons, idxKids]
+    rw [lookupName_skip (.idx s) c pre _ (fun x hx => h x hx s (Nat.le_refl _))]
+    have ih := idxKids_namedFrom cs (s + 1) (pre ++ [(.idx s, c)]) (by
+      intro x hx j hj
+      rcases List.mem_append.1 hx with hx | hx
+      · exact h x hx j (by omega)
+      · simp only [List.mem_singleton] at hx
+        subst hx
+        intro heq
+        cases heq
+        omega)
+    simp only [List.append_assoc, List.singleton_append] at ih
+    simp only [ih]
+end TenpyModel.C17
